@@ -3,6 +3,7 @@ import TrionModel.Lemmas.FrontReject
 import TrionModel.Lemmas.ShowAsm
 import TrionModel.Lemmas.FrontWf
 import TrionModel.Props.C02
+import TrionModel.Props.C01
 /-!
 # C04 — an instruction statement assembles to the encoding of what was written
 
@@ -166,7 +167,7 @@ theorem front_then_enc {Hws Err : Type} (encode : Instr → Except Err Hws) (dec
 emitted bytes — followed by anything — decode to exactly the instruction the front end built, consuming exactly
 the emitted bytes; the instruction's operands are the ones written (`b_target` … `ldr_target`, `reg_names`,
 `narrow_exact_*`, `build_wf`), the mnemonic is in the table and the operand count is the mnemonic's.
-(`Arm.decode`, the specification table, can replace `Codec.decode` once C01 `enc_sound` is proved.) -/
+(`front_then_arm` below states the same against the specification table `Arm.decode`.) -/
 theorem front_then_codec (a : Nat) (name : Bytes) (args : List Arg) (eval : Arg → EvalOut) (loc : Bool) (i : Instr)
     (hws rest : List Nat) (hb : build a name args eval loc = .completed i) (he : Codec.encode i = .ok hws) :
     Codec.decode (Codec.toBytes hws ++ rest) = .ok (2 * hws.length, i) ∧ i.wf ∧
@@ -186,6 +187,45 @@ theorem canonical_then_codec (i : Instr) (a : Nat) (eval : Arg → EvalOut) (loc
   have := (front_then_codec a _ _ eval loc i hws [] hb he).1
   rw [List.append_nil] at this
   exact ⟨hb, this⟩
+
+/-- C04.k  **Against the architecture table**: composition with C01 `enc_sound`. Whenever the front end completes
+a statement to `i` and the encoder accepts `i`, the halfwords placed are — in the ARMv6-M encoding table
+`Arm.table` / `Arm.decode` of `Spec/Arm.lean`, which shares no code with the encoder or decoder model — the
+encoding of exactly `i`: that mnemonic with exactly those operand values (which `b_target` … `ldr_target`,
+`reg_names`, `narrow_exact_*` tie to what was written). The emitted bytes are one or two little-endian halfwords
+below 2^16, two exactly when the first halfword lies in the 32-bit space, and the decoder model reads them back. -/
+theorem front_then_arm (a : Nat) (name : Bytes) (args : List Arg) (eval : Arg → EvalOut) (loc : Bool) (i : Instr)
+    (hws : List Nat) (hb : build a name args eval loc = .completed i) (he : Codec.encode i = .ok hws) :
+    Arm.decode hws = some i ∧ i.wf ∧ (hws.length = 1 ∨ hws.length = 2) ∧ (∀ w ∈ hws, w < 65536) ∧
+      (∀ w0 ∈ hws.head?, (hws.length = 2 ↔ Arm.wide w0 = true)) ∧
+      (∀ rest, Codec.decode (Codec.toBytes hws ++ rest) = .ok (2 * hws.length, i)) ∧
+      ∃ t, mnemonic name = some t ∧ args.length = (kinds t).length := by
+  have wf := build_wf a name args eval loc i hb
+  have hl := Codec.enc_len i hws he wf
+  exact ⟨Codec.enc_sound i hws he wf, wf, hl.1, hl.2.1, hl.2.2,
+    fun rest => (front_then_codec a name args eval loc i hws rest hb he).1,
+    (front_then_codec a name args eval loc i hws [] hb he).2.2⟩
+
+/-- C04.k'  The canonical spelling (`Show.parts`, what the disassembler prints) of every printable instruction the
+encoder accepts assembles to halfwords that the architecture table reads as that instruction. -/
+theorem canonical_then_arm (i : Instr) (a : Nat) (eval : Arg → EvalOut) (loc : Bool)
+    (hp : Printable i a) (hev : EvalOK eval i a) (hws : List Nat) (he : Codec.encode i = .ok hws) :
+    build a (parts i a).1 (parts i a).2 eval loc = .completed i ∧ Arm.decode hws = some i :=
+  ⟨front_canonical i a eval loc hp hev,
+   (front_then_arm a _ _ eval loc i hws (front_canonical i a eval loc hp hev) he).1⟩
+
+/-- C04.k''  Conversely nothing encodable is lost between front end and table: if the table has an encoding of the
+instruction the front end built, the encoder accepts it and emits an encoding of it (C01 `enc_complete`). -/
+theorem front_arm_complete (a : Nat) (name : Bytes) (args : List Arg) (eval : Arg → EvalOut) (loc : Bool) (i : Instr)
+    (hws : List Nat) (_hb : build a name args eval loc = .completed i) (hd : Arm.decode hws = some i) :
+    ∃ hws', Codec.encode i = .ok hws' ∧ Arm.decode hws' = some i := Codec.enc_complete i hws hd
+
+/-- non-vacuity: `ADDS R1, R2, 5` at 0 with the identity evaluator -/
+example : build 0 (bytesOf "ADDS") [.ident (bytesOf "R1"), .ident (bytesOf "R2"), .const 5] (fun x => .complete x) false =
+      .completed (.add true 1 2 (.imm 5)) ∧
+    Codec.encode (.add true 1 2 (.imm 5)) = .ok [0x1D51] ∧ Arm.decode [0x1D51] = some (.add true 1 2 (.imm 5)) :=
+  ⟨rfl, rfl, (front_then_arm 0 (bytesOf "ADDS") [.ident (bytesOf "R1"), .ident (bytesOf "R2"), .const 5]
+    (fun x => .complete x) false _ _ rfl rfl).1⟩
 
 /-- non-vacuity: `ADDS R1, R2, 5` at 0 with the identity evaluator -/
 example : build 0 (bytesOf "ADDS") [.ident (bytesOf "R1"), .ident (bytesOf "R2"), .const 5] (fun x => .complete x) false =
